@@ -154,6 +154,12 @@ impl VM {
                 .instructions_mut()
                 .instruction_pointer();
 
+            #[cfg(smlxl_storage_layout_extractor_verif)]
+            crate::verif::emit(|| crate::verif::Event::LoopIter {
+                site:  "vm.execute",
+                index: counter,
+            });
+
             // If we have been told to stop, stop and return an error.
             if counter % poll_interval == 0 && self.watchdog.should_stop() {
                 Err(Error::StoppedByWatchdog).locate(instruction_pointer)?;
@@ -167,6 +173,21 @@ impl VM {
                 .visited_instructions_mut()
                 .mark_visited(instruction_pointer)?;
 
+            #[cfg(smlxl_storage_layout_extractor_verif)]
+            if let Some(thread) = self.thread_queue.front() {
+                let gas = thread.gas_usage();
+                let visits = thread
+                    .state()
+                    .visited_instructions()
+                    .visit_count(instruction_pointer)
+                    .unwrap_or(0);
+                crate::verif::emit(|| crate::verif::Event::Step {
+                    ip: instruction_pointer,
+                    gas,
+                    visits,
+                });
+            }
+
             let result = instruction.execute(self);
             match result {
                 Ok(_) => {
@@ -178,6 +199,13 @@ impl VM {
                         .consume_gas(instruction.min_gas_cost());
                 }
                 Err(payload) => {
+                    #[cfg(smlxl_storage_layout_extractor_verif)]
+                    let verif_observed = (
+                        payload.location,
+                        format!("{:?}", payload.payload),
+                        self.errors.len(),
+                    );
+
                     // If execution errored and we are not in permissive error mode, add the error
                     // to the collection of them and then kill the current
                     // thread to continue. If we are in permissive error mode we
@@ -195,6 +223,16 @@ impl VM {
                             self.errors.add(payload);
                         }
                     }
+                    #[cfg(smlxl_storage_layout_extractor_verif)]
+                    {
+                        let recorded = self.errors.len() > verif_observed.2;
+                        crate::verif::emit(|| crate::verif::Event::OpError {
+                            ip: verif_observed.0,
+                            error: verif_observed.1,
+                            recorded,
+                        });
+                    }
+
                     self.kill_current_thread();
                 }
             }
@@ -269,6 +307,14 @@ impl VM {
         let should_die = self.current_thread_killed;
 
         if exceeded_iteration_limit || is_out_of_gas || should_die {
+            #[cfg(smlxl_storage_layout_extractor_verif)]
+            crate::verif::emit(|| crate::verif::Event::Retire {
+                ip:         instruction_pointer,
+                at_limit:   exceeded_iteration_limit,
+                out_of_gas: is_out_of_gas,
+                killed:     should_die,
+            });
+
             // In this case we are at the end of this thread, so we need to collect it and
             // move on by removing it from the queue. We already know that the queue isn't
             // empty, so it's safe to `unwrap`.
@@ -406,6 +452,14 @@ impl VM {
         // It is a programmer error to ask for a thread to be forked when none exists,
         // so we forward the error immediately.
         let new_thread = self.current_thread_mut()?.fork(jump_target);
+        #[cfg(smlxl_storage_layout_extractor_verif)]
+        {
+            let from = new_thread.state().fork_point();
+            crate::verif::emit(|| crate::verif::Event::Fork {
+                from,
+                to: jump_target,
+            });
+        }
         self.enqueue_thread(new_thread);
 
         Ok(())
@@ -477,6 +531,11 @@ impl VM {
 
     /// Stores the provided error into the error buffer.
     pub fn store_error(&mut self, error: LocatedError) {
+        #[cfg(smlxl_storage_layout_extractor_verif)]
+        crate::verif::emit(|| crate::verif::Event::StoredError {
+            ip:    error.location,
+            error: format!("{:?}", error.payload),
+        });
         self.errors.add(error);
     }
 
